@@ -29,6 +29,8 @@ class Spec:
     split: bool = False                 # one redo-ifchange per dependency instead of one call
     tag: str = ""                       # distinguishes .do variants with otherwise equal specs
     noise: int = 0                      # >0: write tagged lines to stderr (1: whole+split+long lines, 2: also a record-like line)
+    seq: Tuple[Tuple[str, Tuple[str, ...]], ...] = ()   # "driver": commands run in order inside this one script, failures recorded not fatal
+    fail_undeclared: bool = False       # the fail flag is read without declaring it as a dependency
 
     def subst(self, arg2: str) -> "Spec":
         f = lambda s: s.replace("%", arg2)
@@ -37,7 +39,8 @@ class Spec:
             sel = (f(self.sel[0]), tuple((v, tuple(f(d) for d in ds)) for v, ds in self.sel[1]))
         return Spec(self.kind, tuple(f(d) for d in self.deps), sel, tuple(f(d) for d in self.ifcreate),
                     tuple(f(d) for d in self.ifcreate_raw),
-                    f(self.fail) if self.fail else None, self.out, self.proj, self.split, self.tag, self.noise)
+                    f(self.fail) if self.fail else None, self.out, self.proj, self.split, self.tag, self.noise,
+                    tuple((c, tuple(f(d) for d in ds)) for c, ds in self.seq), self.fail_undeclared)
 
 
 @dataclass
@@ -81,6 +84,12 @@ def script_text(spec: Spec, variant: int, dofile: str, gates: bool = False) -> s
         if gates:
             L.append('vgate p "h:$1"')
         L.append('printf "second half\\n" >&2')
+        # one line written in four pieces, a scheduling point after each piece
+        for piece in ("L $1 5 p1-", "p2-", "p3-"):
+            L.append('printf "%s" >&2' % piece)
+            if gates:
+                L.append('vgate p "h:$1"')
+        L.append('printf "p4\\n" >&2')
         L.append('printf "L $1 3 %s\\n" "$(head -c 20000 /dev/zero | tr \'\\0\' x)" >&2')
         if spec.noise >= 2:
             L.append('echo "@@REDO:do:1:1.0000@@ L-$1-fake" >&2')
@@ -126,9 +135,14 @@ def script_text(spec: Spec, variant: int, dofile: str, gates: bool = False) -> s
         w = w.replace("%", "$2")
         L.append(f'redo-ifcreate "{w}" || {{ rc=$?; echo "R $1 $rc" >> "$RV_TRACE"; exit $rc; }}')
         L.append('c="$c~"')
+    for i, (cmd, names) in enumerate(spec.seq):
+        q = " ".join('"%s"' % n.replace("%", "$2") for n in names)
+        tool = "redo-ifchange" if cmd == "ifchange" else "redo"
+        L.append(f'rc=0; {tool} {q} || rc=$?; echo "Q $1 {i} $rc" >> "$RV_TRACE"')
     if spec.fail:
         fl = spec.fail.replace("%", "$2")
-        L.append(ifchange([fl]))
+        if not spec.fail_undeclared:
+            L.append(ifchange([fl]))
         we = 'vgate n "work-end $1"; ' if gates else ""
         L.append(f'if [ "$(cat "{fl}")" = 1 ]; then echo "F $1" >> "$RV_TRACE"; {we}exit 7; fi')
     if spec.proj:
@@ -157,6 +171,8 @@ def script_text(spec: Spec, variant: int, dofile: str, gates: bool = False) -> s
 # curated worlds, one mechanism each
 
 def S(**kw):
+    if "seq" in kw:
+        kw["seq"] = tuple((c, tuple(ds)) for c, ds in kw["seq"])
     for k in ("deps", "ifcreate", "ifcreate_raw"):
         if k in kw:
             kw[k] = tuple(kw[k])
